@@ -113,6 +113,12 @@ pub enum MapOp {
     IntoIterForEach,
     /// drain through for_each after one next()
     DrainForEach,
+    /// drain(): one next(), then drop the Drain (its destructor drops the rest and resets the table)
+    DrainDropEarly,
+    /// into_iter(): one next(), then drop the IntoIter
+    IntoIterDropEarly,
+    /// extract_if(all): one next(), then drop the ExtractIf (the unvisited elements stay)
+    ExtractIfDropEarly,
     /// extract_if(even ids): one next(), then count() (fold)
     ExtractIfEvenCount,
     RawEntry(u8, crate::mapentry::RBuild, crate::mapentry::RAct),
@@ -272,6 +278,8 @@ pub struct MapCfg {
     /// C13: an insertion must not grow the allocation while the table is at most half full
     /// (slots freed by removals must be reclaimed in place instead of driving growth)
     pub no_growth_when_half_empty: bool,
+    /// every system starts with `reserve(n)` on the fresh map (scripted layouts in a table of a given size)
+    pub initial_capacity: Option<usize>,
 }
 impl MapCfg {
     pub fn new(plan: Plan, universe: u8) -> Self {
@@ -288,6 +296,7 @@ impl MapCfg {
             alt_hasher: false,
             ops_universe: None,
             no_growth_when_half_empty: false,
+            initial_capacity: None,
         }
     }
     /// class of each key id: index of its hash among the plan's distinct hashes
@@ -358,7 +367,11 @@ impl Baseline {
 
 impl<K: KeyT, V: ValT> MapSut<K, V> {
     pub fn new(cfg: &MapCfg) -> Self {
-        Self::with_map(cfg, Map::<K, V>::with_hasher_in(PlanBuild { alt: cfg.alt_hasher }, CheckAlloc))
+        let mut s = Self::with_map(cfg, Map::<K, V>::with_hasher_in(PlanBuild { alt: cfg.alt_hasher }, CheckAlloc));
+        if let Some(c) = cfg.initial_capacity {
+            s.map.reserve(c);
+        }
+        s
     }
     pub fn with_map(cfg: &MapCfg, map: Map<K, V>) -> Self {
         let base = Baseline::take();
@@ -768,6 +781,50 @@ impl<K: KeyT, V: ValT> MapHarness<K, V> {
                 let mut want = std::mem::take(&mut sut.model);
                 want.sort_unstable();
                 chk!(c, got == want, "drain(): next() then for_each visited {:?}, reference {:?}", got, want);
+            }
+            MapOp::DrainDropEarly => {
+                let mut first = None;
+                {
+                    let mut d = sut.map.drain();
+                    if let Some((k, v)) = d.next() {
+                        first = Some((k.id(), k.tok(), v.tok()));
+                    }
+                }
+                chk!(c, first.is_some() == !sut.model.is_empty(), "drain(): first next() returned {:?} for a map of {} entries", first, sut.model.len());
+                if let Some(f) = first {
+                    chk!(c, sut.model.contains(&f), "drain() yielded {:?} which is not stored", f);
+                }
+                sut.model.clear();
+            }
+            MapOp::IntoIterDropEarly => {
+                let old = std::mem::take(&mut sut.map);
+                let mut it = old.into_iter();
+                let first = it.next().map(|(k, v)| (k.id(), k.tok(), v.tok()));
+                drop(it);
+                if let Some(f) = first {
+                    chk!(c, sut.model.contains(&f), "into_iter() yielded {:?} which is not stored", f);
+                }
+                sut.model.clear();
+            }
+            MapOp::ExtractIfDropEarly => {
+                let mut first = None;
+                {
+                    let mut it = sut.map.extract_if(|_, _| {
+                        env::tick(Class::Closure);
+                        true
+                    });
+                    if let Some((k, v)) = it.next() {
+                        first = Some((k.id(), k.tok(), v.tok()));
+                    }
+                }
+                chk!(c, first.is_some() == !sut.model.is_empty(), "extract_if(all): first next() returned {:?} for a map of {} entries", first, sut.model.len());
+                if let Some(f) = first {
+                    let p = sut.model.iter().position(|e| *e == f);
+                    chk!(c, p.is_some(), "extract_if(all) yielded {:?} which is not stored", f);
+                    if let Some(p) = p {
+                        sut.model.swap_remove(p);
+                    }
+                }
             }
             MapOp::ExtractIfEvenCount => {
                 let evens = sut.model.iter().filter(|e| e.0 % 2 == 0).count();
@@ -1311,6 +1368,9 @@ impl<K: KeyT, V: ValT> Harness for MapHarness<K, V> {
         if a.clone {
             v.push(MapOp::IntoIterForEach);
             v.push(MapOp::DrainForEach);
+            v.push(MapOp::DrainDropEarly);
+            v.push(MapOp::IntoIterDropEarly);
+            v.push(MapOp::ExtractIfDropEarly);
             v.push(MapOp::ExtractIfEvenCount);
             v.push(MapOp::CloneDrop);
             for &t in TARGETS {
